@@ -188,7 +188,7 @@ return dedupe_ok(S1, S2, v)
 S1 = {"type": "object", "title": "In", "properties": {"a": {"const": c1}}}
 S2 = {"type": "object", "title": "In", "properties": {"a": {"const": c2}}}
 return dedupe_ok(S1, S2, v)
-""", timeout=90, group="users"))
+""", timeout=240, group="users"))
     hs.append(mk("c17_definitions_const", f"c1: {LIT}, c2: {LIT}, v: {DV}", DPRE + excl, """
 def make():
     return Element(properties={"a": Property(Element(const=c1))}, additionalProperties=Element(enum=[c2]))
